@@ -10,9 +10,11 @@ SPEC = {
     "level_text": "Theorems over the list-of-atomic-filesystem-operations model of dirCache.Store/Retrieve (both modes), cut at "
                   "every position and interleaved with a small-step reader: round trip (node for node), miss, crash atomicity "
                   "(full for compressed caches; plain caches when the old entry's requested outputs are leaves, which includes "
-                  "every fresh key), one-store/one-retrieve interleaving on a fresh key.  The full statement is refuted by two "
-                  "witness theorems (re-store removes the old entry in place; compressed retrieve reports ENOENT as a hit), "
-                  "both replayed on the real code.  Left out of the model: I/O errors other than a missing source output, "
+                  "every fresh key), one-store/one-retrieve interleaving on a fresh key - and, for compressed caches, at full "
+                  "strength with an old entry present (C12_concurrent_compressed) since /repo 8962d3b fixed the finding "
+                  "`compressed-retrieve-enoent-reported-as-hit` (the old witness is kept conditional on the old fact value).  The "
+                  "full statement is still refuted for plain caches by one witness (re-store removes the old entry in place), "
+                  "replayed on the real code.  Left out of the model: I/O errors other than a missing source output, "
                   "the copy fallback's temp-file-and-rename sequence (covered by the any-temp-only-operation frame lemma, not "
                   "by a specific op list), file modes other than the owner-executable bit, gzip/tar encoding.  A torn entry "
                   "tarball is a miss (theorem + fact damagedIsMiss + real-code runs), for cuts that reach at least a quarter "
